@@ -70,11 +70,13 @@
                                 (QV.Proofs.SemStraight) is its single-block induction with the invariant `Grows`.
     `compile_correct_property_read`  the earlier special case `P ::= o.p` with the built IR written out
                                 (`build_property_read`).
-  NOT proved: assignments to variables (`x = e`: the variable relation is only established for initialised, never
-  re-assigned variables), declarations with a type annotation or without initialiser, several declarators in one `let`,
-  nested blocks, float/string/null literals, calls, casts, subscripts inside the induction, and the other statements
-  (if/switch/break): decided per program by the streams `c01-ir` (IrSem on the REAL IR = Spec.Sem) and `spec-c01` (the real
-  C++ executed = Spec.Sem).
+    (appended sections at the end of this file) `compile_correct_block_assign` / `compile_correct_block_if` /
+                                `compile_correct_block_early_return`: blocks with assignment to declared `let` variables,
+                                `if`/`if-else` statements whose branch bodies are assignments, and branches that `return`.
+  NOT proved: declarations with a type annotation or without initialiser, several declarators in one `let`, declarations and
+  nested `if`s inside non-returning branch bodies, an `if` as the last statement of a block, nested blocks, switch/break,
+  float/string/null literals, calls, casts, subscripts inside the induction: decided per program by the streams `c01-ir`
+  (IrSem on the REAL IR = Spec.Sem) and `spec-c01` (the real C++ executed = Spec.Sem).
 -/
 import QV.Proofs.SemCfgBlock
 import QV.Proofs.SemCfgStmt
@@ -1074,9 +1076,10 @@ theorem walk_statements_return (wc : Ctx) (sc : QV.Spec.Sem.Ctx) (ic : ICtx) (ha
 
 /-- C01, END-TO-END for blocks with assignments, `if` statements and EARLY RETURNS:  P ::= { S },
       S ::= e | return e | let x = e; S | const x = e; S | x = e; S | if (e) { A } else { A }; S | if (e) { A }; S
-          | if (e) { T }; S
+          | if (e) { T }; S | if (e) { T } else { A }; S | if (e) { A } else { T }; S | if (e) { T } else { T }; S
       T ::= an S without early return that ends in `return e`
-      A ::= ε | x = e; A -/
+      A ::= ε | x = e; A
+    (after `if (e) { T } else { T }` the rest is dead code, but the program must still end in an expression / `return`) -/
 theorem compile_correct_block_early_return (wc : Ctx) (sc : QV.Spec.Sem.Ctx) (ic : ICtx) (hag : CtxAgree wc sc ic) (isRet : Bool)
     (stmts : List Stmt) (hs : RFrag wc isRet [] stmts) (code : CodeBody)
     (hcode : (build wc false (.stmt (.block stmts))).code = some code)
@@ -1177,6 +1180,32 @@ example (wc : QV.Model.Ctx) (ci : ClassInfo) (pi pj : PropInfo)
           (.decl _ _ _ _ _ _ (.binary _ (.arith .sub) _ _ rfl (by intro l h; cases h) (.var "m" (by simp)) (.int 100))
             (.ret _ _ (.binary _ (.arith .mul) _ _ rfl (by intro l h; cases h) (.var "c" (by simp)) (.int 2))))
           (.expr _ _ (.binary _ (.arith .add) _ _ rfl (by intro l h; cases h) (.var "m" (by simp)) (.int 1))))))
+
+/-- `{ const n = a.i; if (n < 0) { return 0 - n } else { } if (n > 9) { } else { return n } if (b.j > 0) { return 1 } else { return 2 } 0 }`
+    (returning consequence, returning alternative, both returning) is in the fragment -/
+example (wc : QV.Model.Ctx) (ci : ClassInfo) (pi pj : PropInfo)
+    (ha : wc.objects.find? (·.1 = "a") = some ("a", "VBase")) (hb : wc.objects.find? (·.1 = "b") = some ("b", "VBase"))
+    (hc : wc.env.findClass "VBase" = some ci) (hi : ci.props.find? (·.name = "i") = some pi)
+    (hj : ci.props.find? (·.name = "j") = some pj) (hti : pi.ty ≠ .void) (htj : pj.ty ≠ .void) :
+    RFrag wc false []
+      [.lexical .const_ [{ name := "n", ty := none, value := some (.member (.ident "a") "i") }],
+       .if_ (.binary .lessThan (.ident "n") (.integer 0))
+         (.block [.return_ (some (.binary .sub (.integer 0) (.ident "n")))]) (some (.block [])),
+       .if_ (.binary .greaterThan (.ident "n") (.integer 9)) (.block []) (some (.block [.return_ (some (.ident "n"))])),
+       .if_ (.binary .greaterThan (.member (.ident "b") "j") (.integer 0))
+         (.block [.return_ (some (.integer 1))]) (some (.block [.return_ (some (.integer 2))])),
+       .expr (.integer 0)] :=
+  .decl _ _ _ _ _ _ (.read "a" "i" "VBase" ci pi ha hc hi hti (by simp))
+    (.ifRetElse _ _ _ _ _ _
+      (.binary _ (.cmp .lt) _ _ rfl (by intro l h; cases h) (.var "n" (by simp)) (.int 0))
+      (.ret _ _ (.binary _ (.arith .sub) _ _ rfl (by intro l h; cases h) (.int 0) (.var "n" (by simp)))) .nil
+      (.ifElseRet _ _ _ _ _ _
+        (.binary _ (.cmp .gt) _ _ rfl (by intro l h; cases h) (.var "n" (by simp)) (.int 9))
+        .nil (.ret _ _ (.var "n" (by simp)))
+        (.ifRetRet _ _ _ _ _ _
+          (.binary _ (.cmp .gt) _ _ rfl (by intro l h; cases h) (.read "b" "j" "VBase" ci pj hb hc hj htj (by simp)) (.int 0))
+          (.ret _ _ (.int 1)) (.ret _ _ (.int 2))
+          (.expr _ _ (.int 0)))))
 
 end EarlyReturn
 
